@@ -14,11 +14,11 @@ import (
 
 func init() {
 	register(&Def{
-		ID: "C07",
+		ID:          "C07",
 		Explanation: "The denotation of each selector clause (Explore / Interests / Match arithmetic, depth accounting) is value-level and not decided. Decided are engine-level necessary conditions that are visible in the shape of the code: (dispatch) every concrete Selector type is constructed by a Parse function that the ParseSelector switch dispatches to, every arm calls one, arm keys are distinct constants; (builderkeys) the keys the selector builder writes under a union key are keys the dispatched Parse function looks up (writer and reader tables agree); (engine) in the advanced walk the visit precedes child iteration; descent happens only with the non-nil result of Explore for that child and hands that very selector down; the visitor receives the Match result when there is one and the node otherwise, with the matching reason constants; WalkMatching calls the user function only for matches; a failed lookup of one interest moves on to the next interest and never leaves the loop; links are loaded with the chooser's prototype; (keepexplored) ExploreRecursive.Explore never discards a non-nil explored selector wholesale (when the depth limit is reached only the recursive edge is stripped).",
-		NotCovered: []string{"the denotation of every clause kind (which children Explore selects, range arithmetic, recursion depth accounting)", "visit order as a sequence", "subset matcher slicing arithmetic"},
-		Trusted:    []string{"go/ssa, go/types"},
-		Run:        runC07,
+		NotCovered:  []string{"the denotation of every clause kind (which children Explore selects, range arithmetic, recursion depth accounting)", "visit order as a sequence", "subset matcher slicing arithmetic"},
+		Trusted:     []string{"go/ssa, go/types"},
+		Run:         runC07,
 	})
 }
 
@@ -172,67 +172,125 @@ func runC07(c *core.Ctx) {
 		c.Undecided("traversal/selector/builder.selectorSpecBuilder", "-", "not found")
 	}
 
-	c.Rule("C07.engine", "walk engine shape: (a) in walkAdv every call of the descent closure is behind the visit call; (b) in explore every descent (walkAdv / walkBlock) receives result 0 of s.Explore(n, ps) and is behind its non-nil edge; (c) in visit the callback gets the Match result under match != nil with the SelectionMatch reason, and the node under match == nil with the candidate reason; (d) WalkMatching's adapter calls the user function only behind reason == SelectionMatch; (e) in walkAdv's interest loop the failure edge of LookupBySegment reaches no return before the next iteration; (f) loadLink hands LinkSystem.Load the prototype returned by the chooser", 7)
+	c.Rule("C07.engine", "walk engine shape, with the engine's functions found by role (package traversal: the recursive function under the Walk* API whose activation invokes the AdvVisitFn callback; the functions that ask Selector.Explore; the functions that load blocks) and helpers expanded: (a) within one activation of the visiting walk no callback invocation is reachable after a descent (and the visit is not deferred): parents are visited before their children; (b) every recursive descent made by a function that asked s.Explore(n, ps) receives result 0 of that call and is behind its non-nil edge; (c) the callback gets the Match result under match != nil with the SelectionMatch reason, and a node that is not the Match result under match == nil with the candidate reason; (d) WalkMatching's adapter calls the user function only behind reason == SelectionMatch; (e) in the interest loop the failure edge of LookupBySegment reaches no return before the next iteration; (f) every block load is given the prototype returned by the LinkTargetNodePrototypeChooser", 7)
 	const trel = "traversal"
-	if fn := p.Func(trel, "Progress", "walkAdv"); fn != nil {
-		key := core.FuncKey(fn)
-		var visit ssa.CallInstruction
-		for _, ci := range core.Calls(fn) {
-			if _, isPlainCall := ci.(*ssa.Call); !isPlainCall {
-				continue // a deferred visit runs after the children
+	tr := newTravRoles(p)
+	isAdvCallback := func(root *ssa.Function, ci ssa.CallInstruction) bool {
+		if !userCallback(root, ci) {
+			return false
+		}
+		nt := namedOfType(core.RegionOf(root).Canon(ci.Common().Value).Type())
+		return nt != nil && nt.Obj().Name() == "AdvVisitFn"
+	}
+	var visiting []*ssa.Function
+	for _, fn := range tr.fns {
+		if fn.Parent() != nil || !tr.recursive(fn) || !tr.underWalkAPI(fn) {
+			continue
+		}
+		for _, ci := range core.CallsR(fn) {
+			if g := ci.Parent(); g != fn && tr.recursive(g) {
+				continue
 			}
-			if cal := ci.Common().StaticCallee(); cal != nil && cal.Name() == "visit" {
-				visit = ci
+			if isAdvCallback(fn, ci) {
+				visiting = append(visiting, fn)
+				break
 			}
 		}
-		if visit == nil {
-			c.Fail(key+"#visit-first", p.Pos(fn.Pos()), "walkAdv does not call visit")
-		} else {
-			bad := false
-			nclosure := 0
-			for _, ci := range core.Calls(fn) {
-				cc := ci.Common()
-				if cc.IsInvoke() {
-					continue
-				}
-				isClosure := false
-				if cal := cc.StaticCallee(); cal != nil {
-					// go/ssa resolves calls of a local closure variable statically
-					isClosure = cal.Parent() == fn
-					if cal.Name() == "explore" {
-						isClosure = true // direct descent without the closure
-					}
-				} else {
-					for w := range core.BackSlice(cc.Value, core.SliceOpts{Stores: true}) {
-						if _, ok := w.(*ssa.MakeClosure); ok {
-							isClosure = true
+	}
+	if len(visiting) == 0 {
+		c.Undecided(trel+"#visiting-walk", "-", "no recursive function under the Walk* API invokes the AdvVisitFn callback")
+	}
+	reasonConst := func(name string) string {
+		if sp2 := p.Pkg(trel); sp2 != nil {
+			if cn, ok := sp2.Members[name].(*ssa.NamedConst); ok {
+				return cn.Value.Value.ExactString()
+			}
+		}
+		return "?"
+	}
+	for _, fn := range visiting {
+		key := core.FuncKey(fn)
+		rg := core.RegionOf(fn)
+		isCb := func(in ssa.Instruction) bool {
+			ci, ok := in.(ssa.CallInstruction)
+			return ok && isAdvCallback(fn, ci)
+		}
+		// (a) pre-order
+		bad := ""
+		ndesc := 0
+		var pos token.Pos = fn.Pos()
+		for _, ci := range core.CallsR(fn) {
+			if g := ci.Parent(); g != fn && tr.recursive(g) {
+				continue
+			}
+			if df, isDefer := ci.(*ssa.Defer); isDefer {
+				if g := df.Call.StaticCallee(); g != nil && len(g.Blocks) > 0 {
+					for _, cj := range core.CallsR(g) {
+						if userCallback(g, cj) || isAdvCallback(fn, cj) {
+							bad = "the visit is deferred: it runs after the children were explored"
+							pos = ci.Pos()
 						}
 					}
 				}
-				if !isClosure {
-					continue
-				}
-				nclosure++
-				if _, reached := core.Reach(fn, nil, isTarget(ci), nil, isTarget(visit)); reached {
-					bad = true
+				continue
+			}
+			isDescent := tr.descent(fn, ci)
+			if g := ci.Common().StaticCallee(); g != nil && g.Parent() == fn {
+				// a local closure called directly (go/ssa resolves it statically): a descent if the closure descends
+				for _, cj := range core.CallsR(g) {
+					if tr.descent(fn, cj) {
+						isDescent = true
+					}
 				}
 			}
-			if nclosure == 0 {
-				bad = true // no descent call recognised: the rule would be vacuous
+			if !isDescent {
+				continue
 			}
-			c.Check(!bad, key+"#visit-first", p.Pos(visit.Pos()), "children are explored only after the node itself was visited", "a child can be explored before its parent node was visited (visit order is no longer depth-first pre-order)")
+			ndesc++
+			if _, reached := core.Reach(fn, ci, isCb, nil, nil); reached {
+				bad = "a callback invocation is reachable after a descent: a child can be explored before its parent node was visited (visit order is no longer depth-first pre-order)"
+				pos = ci.Pos()
+			}
+			// and the descent is not the first thing: some path through the visiting step leads to it
+			if _, reached := core.Reach(fn, nil, isTarget(ci), nil, nil); !reached {
+				continue
+			}
 		}
+		// the callback must be reachable before the first descent at all (otherwise the order is vacuous)
+		if _, reached := core.Reach(fn, nil, isCb, nil, func(in ssa.Instruction) bool {
+			ci, ok := in.(ssa.CallInstruction)
+			if !ok {
+				return false
+			}
+			if tr.descent(fn, ci) {
+				return true
+			}
+			if g := ci.Common().StaticCallee(); g != nil && g.Parent() == fn {
+				return true
+			}
+			return false
+		}); !reached && bad == "" {
+			bad = "no callback invocation is reachable before the first descent"
+		}
+		if ndesc == 0 && bad == "" {
+			bad = "no descent recognised in the visiting walk"
+		}
+		c.Check(bad == "", key+"#visit-first", p.Pos(pos), "children are explored only after the node itself was visited", bad)
+
 		// (e) interest loop
-		for _, ci := range core.Calls(fn) {
+		for _, ci := range core.CallsR(fn) {
 			cv := core.CallValue(ci)
 			if cv == nil || !cv.Call.IsInvoke() || cv.Call.Method.Name() != "LookupBySegment" {
 				continue
 			}
+			if g := ci.Parent(); g != fn && tr.recursive(g) {
+				continue
+			}
+			home := cv.Parent()
 			nonNil := core.EdgesWhere(fn, func(r core.Rel) bool { return r.Op == token.NEQ && extractOf(r.X, cv, 1) && core.IsNilConst(r.Y) })
-			bad := len(nonNil) == 0
-			// the loop the lookup sits in, and its header (the block of the cycle that dominates the others)
+			badL := len(nonNil) == 0
 			var header *ssa.BasicBlock
-			for _, lp := range core.LoopBlocks(fn) {
+			for _, lp := range core.LoopBlocks(home) {
 				has := false
 				for _, b := range lp {
 					if b == cv.Block() {
@@ -255,64 +313,26 @@ func runC07(c *core.Ctx) {
 				}
 			}
 			if header == nil {
-				bad = true
+				badL = true
 			}
 			for e := range nonNil {
 				// from the failure edge every path must come back to the loop header (next interest) before any return
 				if header != nil && reachFromBlock(fn, e.To(), func(in ssa.Instruction) bool { _, ok := in.(*ssa.Return); return ok }, func(in ssa.Instruction) bool { return in.Block() == header }) {
-					bad = true
+					badL = true
 				}
 			}
-			c.Check(!bad, key+"#interest-miss-continues", p.Pos(cv.Pos()), "a missing interest is skipped and the loop goes on", "when the lookup of one interest fails the loop over the interests is left: interests listed after a missing one are never explored")
+			c.Check(!badL, key+"#interest-miss-continues", p.Pos(cv.Pos()), "a missing interest is skipped and the loop goes on", "when the lookup of one interest fails the loop over the interests is left: interests listed after a missing one are never explored")
 		}
-	} else {
-		c.Undecided(trel+".Progress.walkAdv", "-", "not found")
-	}
-	if fn := p.Func(trel, "Progress", "explore"); fn != nil {
-		key := core.FuncKey(fn)
-		var ex *ssa.Call
-		for _, ci := range core.Calls(fn) {
-			if cv := core.CallValue(ci); cv != nil && cv.Call.IsInvoke() && cv.Call.Method.Name() == "Explore" {
-				ex = cv
-			}
-		}
-		if ex == nil {
-			c.Fail(key+"#explore", p.Pos(fn.Pos()), "explore does not ask the selector (Explore)")
-		} else {
-			nonNil := core.EdgesWhere(fn, func(r core.Rel) bool { return r.Op == token.NEQ && extractOf(r.X, ex, 0) && core.IsNilConst(r.Y) })
-			n := 0
-			for _, ci := range core.Calls(fn) {
-				cal := ci.Common().StaticCallee()
-				if cal == nil || (cal.Name() != "walkAdv" && cal.Name() != "walkBlock") {
-					continue
-				}
-				n++
-				selOK := false
-				for _, a := range ci.Common().Args {
-					if extractOf(a, ex, 0) {
-						selOK = true
-					}
-				}
-				path, reached := core.Reach(fn, nil, isTarget(ci), nonNil, nil)
-				c.Check(selOK && !reached && len(nonNil) > 0, fmt.Sprintf("%s#descent%d-selector", key, n), p.Pos(ci.Pos()), "descends with the explored selector, only when it is non-nil", "a descent does not hand down the selector returned by Explore for this child, or is reachable when Explore returned nil", p.Witness(path)...)
-			}
-		}
-	}
-	if fn := p.Func(trel, "Progress", "visit"); fn != nil {
-		key := core.FuncKey(fn)
+
+		// (c) what the callback is told
 		var match *ssa.Call
-		for _, ci := range core.Calls(fn) {
+		for _, ci := range core.CallsR(fn) {
+			if g := ci.Parent(); g != fn && tr.recursive(g) {
+				continue
+			}
 			if cv := core.CallValue(ci); cv != nil && cv.Call.IsInvoke() && cv.Call.Method.Name() == "Match" {
 				match = cv
 			}
-		}
-		reasonConst := func(name string) string {
-			if sp2 := p.Pkg(trel); sp2 != nil {
-				if cn, ok := sp2.Members[name].(*ssa.NamedConst); ok {
-					return cn.Value.Value.ExactString()
-				}
-			}
-			return "?"
 		}
 		good := match != nil
 		if match != nil {
@@ -322,12 +342,13 @@ func runC07(c *core.Ctx) {
 				isNil[core.Edge{From: e.From, Succ: 1 - e.Succ}] = true
 			}
 			calls := 0
-			for _, ci := range core.Calls(fn) {
-				cc := ci.Common()
-				if cc.StaticCallee() != nil || cc.IsInvoke() {
+			for _, ci := range core.CallsR(fn) {
+				if !isCb(ci) {
 					continue
 				}
-				if _, isParam := cc.Value.(*ssa.Parameter); !isParam {
+				cc := ci.Common()
+				if len(cc.Args) != 3 {
+					good = false
 					continue
 				}
 				calls++
@@ -340,7 +361,13 @@ func runC07(c *core.Ctx) {
 						good = false
 					}
 				default:
-					if prm, ok := core.Strip(node).(*ssa.Parameter); !ok || !isNodeType(prm.Type()) {
+					fromMatch := false
+					for w := range core.BackSlice(node, core.SliceOpts{Stores: true, Region: rg}) {
+						if extractOf(w, match, 0) {
+							fromMatch = true
+						}
+					}
+					if fromMatch || !isNodeType(node.Type()) {
 						good = false
 					}
 					_, r := core.Reach(fn, nil, isTarget(ci), isNil, nil)
@@ -353,23 +380,73 @@ func runC07(c *core.Ctx) {
 				good = false
 			}
 		}
-		c.Check(good, key+"#match-result-and-reason", p.Pos(fn.Pos()), "matched nodes are reported as the Match result with the match reason, others as candidates", "visit does not report (Match result, SelectionMatch) exactly when Match returned a node and (node, SelectionCandidate) otherwise")
+		c.Check(good, key+"#match-result-and-reason", p.Pos(fn.Pos()), "matched nodes are reported as the Match result with the match reason, others as candidates", "the visiting walk does not report (Match result, SelectionMatch) exactly when Match returned a node and (node, SelectionCandidate) otherwise")
 	}
+
+	// (b) every function that asks the selector and then descends
+	for _, fn := range tr.fns {
+		if fn.Parent() != nil || !tr.recursive(fn) || !tr.underWalkAPI(fn) {
+			continue
+		}
+		var ex *ssa.Call
+		for _, ci := range core.CallsR(fn) {
+			if g := ci.Parent(); g != fn && tr.recursive(g) {
+				continue
+			}
+			if cv := core.CallValue(ci); cv != nil && cv.Call.IsInvoke() && cv.Call.Method.Name() == "Explore" {
+				if nt := namedOfType(cv.Call.Value.Type()); nt != nil && nt.Obj().Name() == "Selector" && len(cv.Call.Args) == 2 {
+					// exploring a child: the segment is a value of the walk, not the package's EmptyPathSegment
+					// (with which the reification step unwraps an InterpretAs clause)
+					if u, ok := core.Strip(cv.Call.Args[1]).(*ssa.UnOp); ok {
+						if _, isGlobal := u.X.(*ssa.Global); isGlobal {
+							continue
+						}
+					}
+					ex = cv
+				}
+			}
+		}
+		if ex == nil {
+			continue
+		}
+		key := core.FuncKey(fn)
+		nonNil := core.EdgesWhere(fn, func(r core.Rel) bool { return r.Op == token.NEQ && extractOf(r.X, ex, 0) && core.IsNilConst(r.Y) })
+		n := 0
+		for _, ci := range core.CallsR(fn) {
+			if g := ci.Parent(); g != fn && tr.recursive(g) {
+				continue
+			}
+			if !tr.descent(fn, ci) {
+				continue
+			}
+			n++
+			selOK := false
+			for _, a := range ci.Common().Args {
+				if extractOf(a, ex, 0) {
+					selOK = true
+				}
+			}
+			path, reached := core.Reach(fn, nil, isTarget(ci), nonNil, nil)
+			c.Check(selOK && !reached && len(nonNil) > 0, fmt.Sprintf("%s#descent%d-selector", key, n), p.Pos(ci.Pos()), "descends with the explored selector, only when it is non-nil", "a descent does not hand down the selector returned by Explore for this child, or is reachable when Explore returned nil", p.Witness(path)...)
+		}
+	}
+
+	// (d)
 	if fn := p.Func(trel, "Progress", "WalkMatching"); fn != nil && len(fn.AnonFuncs) == 1 {
 		cl := fn.AnonFuncs[0]
-		matchC := "?"
-		if cn, ok := p.Pkg(trel).Members["VisitReason_SelectionMatch"].(*ssa.NamedConst); ok {
-			matchC = cn.Value.Value.ExactString()
-		}
+		matchC := reasonConst("VisitReason_SelectionMatch")
 		eq := core.EdgesWhere(cl, func(r core.Rel) bool {
 			cv := core.ConstVal(r.Y)
 			_, isP := r.X.(*ssa.Parameter)
 			return r.Op == token.EQL && isP && cv != nil && cv.ExactString() == matchC
 		})
 		bad := len(eq) == 0
-		for _, ci := range core.Calls(cl) {
+		for _, ci := range core.CallsR(cl) {
 			cc := ci.Common()
 			if cc.StaticCallee() == nil && !cc.IsInvoke() {
+				if _, isB := cc.Value.(*ssa.Builtin); isB {
+					continue
+				}
 				if _, r := core.Reach(cl, nil, isTarget(ci), eq, nil); r {
 					bad = true
 				}
@@ -377,24 +454,34 @@ func runC07(c *core.Ctx) {
 		}
 		c.Check(!bad, core.FuncKey(fn)+"#matches-only", p.Pos(fn.Pos()), "user function called only for matches", "WalkMatching calls the user function for visits that are not matches")
 	}
-	if fn := p.Func(trel, "Progress", "loadLink"); fn != nil {
-		var chooser *ssa.Call
-		for _, ci := range core.Calls(fn) {
-			if fieldFuncCall(ci, "Config", "LinkTargetNodePrototypeChooser") {
-				chooser = core.CallValue(ci)
-			}
+
+	// (f) every block load of the walks uses the chooser's prototype
+	for _, fn := range tr.fns {
+		if tr.absorbed(fn) && fn.Parent() == nil {
+			// a loading helper is looked at on its own too: the chooser call normally sits next to the load
 		}
-		good := false
+		n := 0
 		for _, ci := range core.Calls(fn) {
-			if core.IsMethod(ci, "", "LinkSystem", "Load") && chooser != nil {
+			if !(core.IsMethod(ci, "", "LinkSystem", "Load") || core.IsMethod(ci, "", "LinkSystem", "Fill")) || !tr.underWalkAPI(fn) {
+				continue
+			}
+			n++
+			good := false
+			for _, cj := range core.CallsR(fn) {
+				if !fieldFuncCall(cj, "Config", "LinkTargetNodePrototypeChooser") {
+					continue
+				}
+				chooser := core.CallValue(cj)
 				for _, a := range ci.Common().Args {
-					if extractOf(a, chooser, 0) {
-						good = true
+					for w := range core.BackSlice(a, core.SliceOpts{Stores: true, ThroughCalls: true}) {
+						if chooser != nil && extractOf(w, chooser, 0) {
+							good = true
+						}
 					}
 				}
 			}
+			c.Check(good, fmt.Sprintf("%s#chooser-prototype%d", core.FuncKey(fn), n), p.Pos(ci.Pos()), "link targets are built with the chooser's prototype", "a block is loaded with a prototype other than the one returned by LinkTargetNodePrototypeChooser")
 		}
-		c.Check(good, core.FuncKey(fn)+"#chooser-prototype", p.Pos(fn.Pos()), "link targets are built with the chooser's prototype", "loadLink does not load with the prototype returned by LinkTargetNodePrototypeChooser")
 	}
 
 	c.Rule("C07.keepexplored", "in ExploreRecursive.Explore: once the current clause returned a non-nil selector for the child (nextSelector != nil edge), no return yields the constant nil selector - reaching the depth limit strips the recursive edge (replaceRecursiveEdge(.., nil)) but keeps sibling clauses such as a matcher in the same union", 1)
